@@ -4,7 +4,7 @@ Per failed attempt k:
 R1 the strategy is called at most once; exactly once if a retry is granted
 R2 the strategy consulted is table[K_k] if registered, else the default
 R3 its arguments: attempt = k; classification = what the classifier returned
-   (the same object when it returned a Classification, incl. retry_after_s);
+   (field-equal to the Classification it returned, incl. retry_after_s);
    prev_sleep_s = previously *applied* delay (None before the first);
    remaining_s = (deadline - elapsed)/1e6 exactly; cause.  Legacy strategies
    get (k, K_k, prev).
@@ -82,7 +82,7 @@ def oracle(scn, trace):
                 if s["ra"] != want_ra:
                     probs.append(("retry_after_s", s["ra"], want_ra))
                 if s["same_cls_obj"] is False:
-                    probs.append(("classification identity", "different object", "classifier's own Classification"))
+                    probs.append(("classification", "fields differ", "the classifier's own Classification (klass, retry_after_s, details)"))
             for name, got, exp in probs:
                 out.append(V("R3", f"strategy received wrong {name}", {"call": cid, "attempt": a.k, "got": got, "expected": exp, "style": s["style"], "entry": ent}))
             # R4 applied delay
